@@ -79,6 +79,7 @@ func Controls(id, repo, verif, tier string, r *core.Report) {
 			continue
 		}
 		p.ApplyAnchors(filepath.Join(verif, "tables", "anchors.json"))
+		ResolveOptionFields(p)
 		sub := core.NewReport()
 		func() {
 			defer func() { recover() }()
